@@ -998,7 +998,7 @@ func c8Shadowing(c *C, r *Rng) {
 	if inG {
 		set.Globals["v"] = C8User{Name: "global"}
 	}
-	ctx := pongo2.Context{"t": C8User{Name: "tag"}}
+	ctx := pongo2.Context{"t": C8User{Name: "tag"}, "incn": "/inc.tpl"}
 	nilC := false
 	if inC {
 		ctx["v"] = &C8User{Name: "context"}
@@ -1023,7 +1023,10 @@ func c8Shadowing(c *C, r *Rng) {
 		wantAfter = "global"
 	}
 	if inT {
-		src = r.Pick([]string{"{% with v=t %}{{ v.Name }}{% endwith %}", "{% for v in [t] %}{{ v.Name }}{% endfor %}", "{% macro m(v) %}{{ v.Name }}{% endmacro %}{{ m(t) }}", "{% include \"/inc.tpl\" with v=t %}"})
+		src = r.Pick([]string{"{% with v=t %}{{ v.Name }}{% endwith %}", "{% for v in [t] %}{{ v.Name }}{% endfor %}", "{% macro m(v) %}{{ v.Name }}{% endmacro %}{{ m(t) }}", "{% include \"/inc.tpl\" with v=t %}",
+			// the name is bound by a tag of the INCLUDING template; the template that prints it is included / ssi-parsed
+			"{% with v=t %}{% include \"/inc.tpl\" %}{% endwith %}", "{% with v=t %}{% include incn %}{% endwith %}", "{% with v=t %}{% ssi \"/inc.tpl\" parsed %}{% endwith %}",
+			"{% for v in [t] %}{% ssi \"/inc.tpl\" parsed %}{% endfor %}", "{% macro m(v) %}{% ssi \"/inc.tpl\" parsed %}{% endmacro %}{{ m(t) }}"})
 	}
 	src += "|{{ v.Name }}|{{ v.Greeting }}"
 	tpl, err := set.FromString(src)
